@@ -58,6 +58,41 @@ func freshContainer(v ssa.Value, depth int) bool {
 					continue
 				}
 			}
+			// the field of an object a constructor helper has just built: what the helper put there
+			if fa, ok := x.X.(*ssa.FieldAddr); ok && x.Op == token.MUL && builtByConstructorCall(x.Parent(), fa.X) {
+				okAll, n := true, 0
+				for _, src := range an.ResolveAll(fa.X) {
+					var call *ssa.Call
+					switch y := src.(type) {
+					case *ssa.Call:
+						call = y
+					case *ssa.Extract:
+						call, _ = y.Tuple.(*ssa.Call)
+					}
+					if call == nil {
+						okAll = false
+						continue
+					}
+					callee := call.Call.StaticCallee()
+					for _, ret := range an.Returns(callee) {
+						for _, r := range an.ResolveAll(an.RetVal(ret, 0)) {
+							al, isAlloc := r.(*ssa.Alloc)
+							if !isAlloc {
+								continue
+							}
+							for _, st := range an.StoresToField(callee, al, an.AccessPath(fa).LastField()) {
+								n++
+								if !freshContainer(st.Val, depth+1) {
+									okAll = false
+								}
+							}
+						}
+					}
+				}
+				if okAll && n > 0 {
+					continue
+				}
+			}
 			return false
 		default:
 			return false
@@ -141,6 +176,9 @@ func checkC08(c *an.Ctx) {
 				n++
 				key := an.Short(fn) + ":write(Task." + name + ")"
 				fresh, copied := an.FreshBase(fa.X)
+				if !fresh && builtByConstructorCall(fn, fa.X) {
+					fresh = true
+				}
 				switch {
 				case fresh:
 					how := "constructor literal"
@@ -335,6 +373,9 @@ func stageLayering(c *an.Ctx, rule string) {
 	target := runArg
 	if fwd, ok := an.ForwardLoad(an.Resolve(runArg)); ok {
 		target = fwd[0]
+	} else if vals, _, ok := c.P.ForwardLoadThroughCall(an.Resolve(runArg)); ok && len(vals) == 1 {
+		// `stage.bind(); run(stage.Task)`: a helper called with the stage stores the copy into stage.Task
+		target = vals[0]
 	}
 	builder := f
 	var alloc *ssa.Alloc
@@ -495,4 +536,41 @@ func freshAtCallSites(p *an.Prog, fn *ssa.Function, v ssa.Value, depth int) (str
 		return "", false
 	}
 	return strings.Join(callers, ", "), true
+}
+
+// builtByConstructorCall reports whether v is the result of a call, made in
+// fn, of a module function that returns an object it allocated itself on
+// every return: fn has just obtained a new object from a constructor helper.
+func builtByConstructorCall(fn *ssa.Function, v ssa.Value) bool {
+	srcs := an.ResolveAll(v)
+	if len(srcs) == 0 {
+		return false
+	}
+	for _, src := range srcs {
+		var call *ssa.Call
+		switch x := src.(type) {
+		case *ssa.Call:
+			call = x
+		case *ssa.Extract:
+			call, _ = x.Tuple.(*ssa.Call)
+		}
+		if call == nil || call.Parent() != fn {
+			return false
+		}
+		callee := call.Call.StaticCallee()
+		if callee == nil || callee.Blocks == nil || !an.InModule(callee) {
+			return false
+		}
+		for _, ret := range an.Returns(callee) {
+			for _, r := range an.ResolveAll(an.RetVal(ret, 0)) {
+				if an.IsNilConst(r) {
+					continue
+				}
+				if al, isAlloc := r.(*ssa.Alloc); !isAlloc || al.Parent() != callee {
+					return false
+				}
+			}
+		}
+	}
+	return true
 }
